@@ -40,6 +40,9 @@ class World:
             def reset_received(self, code):
                 world.resets.append(int(code))
 
+            def error_received(self, code):
+                world.resets.append(int(code))
+
             def connection_made(self, p):
                 pass
 
